@@ -1052,6 +1052,103 @@ pub fn c14(eng: &mut Engine, rng: &mut Rng, thorough: bool, out: &mut Out) -> Ca
             }
         }
     }
+    // the `proof` member of the stored document (op proof_doc, model ProofDoc): which proof the getters find in every spelling
+    {
+        let base = serde_json::to_value(&eng.cast.creds[eng.cast.cred("a_alice")].w3c).unwrap();
+        // AnonCreds proofs of the three kinds, taken from real objects; identity = position in `known`
+        let mut known: Vec<(u64, Value)> = vec![];    // (kind, proof object)
+        for c in eng.cast.creds.iter().take(4) {
+            let j = serde_json::to_value(&c.w3c).unwrap();
+            if let Some(p) = j["proof"].as_array().and_then(|a| a.first()) { known.push((0, p.clone())); }
+        }
+        let plan = crate::scen::gen_honest_plan(rng, &eng.cast, true, false);
+        if let Ok(b) = eng.build_w3c(&plan) {
+            let pj = serde_json::to_value(&b.pres).unwrap();
+            for vc in pj["verifiableCredential"].as_array().cloned().unwrap_or_default().iter().take(2) { known.push((1, vc["proof"].clone())); }
+            known.push((2, pj["proof"].clone()));
+        }
+        let with_proof = |proof: &Value| -> Option<W3CCredential> { let mut d = base.clone(); d["proof"] = proof.clone(); serde_json::from_str(&d.to_string()).ok() };
+        let purposes = ["assertionMethod", "authentication"];
+        let anon_obj = |id: usize, purpose: usize| -> Value { let mut o = known[id].1.clone(); o["proofPurpose"] = json!(purposes[purpose]); o };
+        // reference values: what the getters return for each known proof presented alone (as an assertion)
+        let ref_sig: Vec<Option<Value>> = (0..known.len()).map(|i| with_proof(&anon_obj(i, 0)).and_then(|c| c.get_credential_signature_proof().ok().map(|v| serde_json::to_value(v).unwrap()))).collect();
+        let ref_pres: Vec<Option<Value>> = (0..known.len()).map(|i| with_proof(&anon_obj(i, 0)).and_then(|c| c.get_credential_presentation_proof().ok().map(|v| serde_json::to_value(v).unwrap()))).collect();
+        // values that are not AnonCreds proofs: foreign proofs, plain values, and near misses of an AnonCreds proof
+        let near = |f: &dyn Fn(&mut Value)| -> Value { let mut o = known[0].1.clone(); f(&mut o); o };
+        let others: Vec<Value> = vec![
+            json!({"type": "Ed25519Signature2020", "proofPurpose": "assertionMethod", "verificationMethod": "did:x:1#k", "proofValue": "z58"}),
+            json!({}), json!(7), json!("x"), Value::Null, json!(true),
+            near(&|o| { o["cryptosuite"] = json!("other-2023"); }),
+            near(&|o| { o.as_object_mut().unwrap().remove("cryptosuite"); }),
+            near(&|o| { o.as_object_mut().unwrap().remove("verificationMethod"); }),
+            near(&|o| { o["proofValue"] = json!("u!!!"); }),
+            near(&|o| { o["proofValue"] = json!("ukgmA"); }),                       // msgpack [9, {}]: unknown tag
+            near(&|o| { let v = o["proofValue"].as_str().unwrap()[1..].to_string(); o["proofValue"] = json!(v); }),   // multibase header missing
+            near(&|o| { o["type"] = json!("Ed25519Signature2020"); }),
+            near(&|o| { o["proofPurpose"] = json!("keyAgreement"); }),
+            near(&|o| { o["verificationMethod"] = json!(5); }),
+        ];
+        let nesteds: Vec<Value> = vec![json!([]), json!([known[0].1.clone()]), json!([7]), json!([[known[0].1.clone()]])];
+        // abstract scalar / entry -> (abstract json, concrete json)
+        let scalar = |rng: &mut Rng| -> (Value, Value) {
+            if rng.chance(1, 2) {
+                let id = rng.below(known.len() as u64) as usize;
+                let purpose = if rng.chance(3, 4) { 0 } else { 1 };
+                (json!({"anon": [purpose, known[id].0, id]}), anon_obj(id, purpose))
+            } else {
+                let id = rng.below(others.len() as u64) as usize;
+                (json!({"other": id}), others[id].clone())
+            }
+        };
+        let mut docs: Vec<(String, Value, Value)> = vec![];
+        // systematic: every known proof under both purposes, alone and as an array of one; every other value alone; the empty array
+        for id in 0..known.len() { for purpose in 0..2 {
+            let a = json!({"anon": [purpose, known[id].0, id]});
+            docs.push(("single".into(), json!({"val": a}), anon_obj(id, purpose)));
+            docs.push(("array-of-one".into(), json!({"arr": [a]}), json!([anon_obj(id, purpose)])));
+        } }
+        for (id, o) in others.iter().enumerate() {
+            docs.push(("other-alone".into(), json!({"val": {"other": id}}), o.clone()));
+            docs.push(("other-before-signature".into(), json!({"arr": [{"other": id}, {"anon": [0, 0, 0]}]}), json!([o, anon_obj(0, 0)])));
+        }
+        docs.push(("empty-array".into(), json!({"arr": []}), json!([])));
+        let n = if thorough { 3000 } else { 300 };
+        for _ in 0..n {
+            if rng.chance(1, 4) {
+                let (a, c) = scalar(rng);
+                docs.push(("random-single".into(), json!({"val": a}), c));
+            } else {
+                let len = rng.below(5);
+                let (mut aa, mut cc) = (vec![], vec![]);
+                for _ in 0..len {
+                    if rng.chance(1, 7) {
+                        let id = rng.below(nesteds.len() as u64) as usize;
+                        aa.push(json!({"nested": id})); cc.push(nesteds[id].clone());
+                    } else { let (a, c) = scalar(rng); aa.push(a); cc.push(c); }
+                }
+                docs.push((format!("random-array-{len}"), json!({"arr": aa}), Value::Array(cc)));
+            }
+        }
+        let ident = |v: Option<Value>, refs: &Vec<Option<Value>>| -> Value { match v { None => Value::Null, Some(v) => refs.iter().position(|r| r.as_ref() == Some(&v)).map(|i| json!(i)).unwrap_or(json!("unknown-value")) } };
+        for (cls, abs, conc) in docs {
+            let imp = match with_proof(&conc) {
+                None => json!({"unreadable": true}),
+                Some(c) => {
+                    let sig = ident(c.get_credential_signature_proof().ok().map(|v| serde_json::to_value(v).unwrap()), &ref_sig);
+                    let pres = ident(c.get_credential_presentation_proof().ok().map(|v| serde_json::to_value(v).unwrap()), &ref_pres);
+                    // oracle (C14): conversion is possible exactly when a signature proof is found
+                    let conv = credential_from_w3c(&c).is_ok();
+                    if conv != !sig.is_null() {
+                        out.oracle_fail("conversion of a stored W3C credential disagrees with the signature proof found in its document", &json!({"fam":"c14.proof_doc","sig":"","cls":cls,"doc":abs}), &json!({"converted": conv, "signature_found": sig}));
+                    }
+                    json!({"sig": sig, "pres": pres, "same": canonical_doc(&serde_json::to_value(&c).unwrap()["proof"]) == canonical_doc(&conc)})   // envelopes decoded: a proof value holds hash maps, whose byte order is not fixed
+                }
+            };
+            let found = if !imp["sig"].is_null() { "sig" } else if !imp["pres"].is_null() { "pres" } else { "none" };
+            out.count(&format!("c14:proof-doc:{}:{found}", cls.split('-').next().unwrap_or("")));
+            cases.push((json!({"op":"proof_doc","fam":"c14.proof_doc","cls":cls,"doc":abs,"nt":true}), imp));
+        }
+    }
     // converted credentials present and verify in their presentation format (both directions): the cast holds both forms of every credential;
     // here: credentials issued natively in W3C form, converted to legacy, presented in legacy form
     {
